@@ -1589,6 +1589,24 @@ class Entity(Instance):
     def ports(self) -> dict[str, Port]:
         return self._ports
 
+    def port_name(self, port: Port) -> str:
+        # name of the port in the generated code (differs from the declared
+        # name when that is not a valid or not a unique vhdl identifier),
+        # search the declarations directly to bypass the buffer aliases of output ports
+        scope = self._scope if self._arch is not None else None
+
+        while scope is not None:
+            if port in scope._declarations:
+                return scope._declarations[port].name
+            scope = scope._parent
+
+        return port.name()
+
+    def entity_name(self) -> str:
+        if self._arch is None:
+            return self._name
+        return self._arch.entity_name()
+
     def add_block(self, block: Block):
         self._blocks.append(block)
 
@@ -1600,7 +1618,8 @@ class Entity(Instance):
     def _port_declarations(self) -> list[str]:
         ret = []
 
-        for name, port in self._ports.items():
+        for port in self._ports.values():
+            name = self.port_name(port)
             direction = port.direction()
             obj = port.get()
 
@@ -1651,9 +1670,9 @@ class Entity(Instance):
     def _entity_declaration(self) -> TextBlock:
         return TextBlock(
             [
-                f"entity {self._name} is",
+                f"entity {self.entity_name()} is",
                 IndentBlock(self._port_map()),
-                f"end {self._name};",
+                f"end {self.entity_name()};",
             ]
         )
 
@@ -1900,9 +1919,12 @@ class EntityInst(Instance):
 
         port_map: list[Tuple[str, str]] = []
 
-        for port_name in self._entity.ports():
+        for port_name, port in self._entity.ports().items():
             port_map.append(
-                (port_name, self._scope.format_target(self._ports[port_name]))
+                (
+                    self._entity.port_name(port),
+                    self._scope.format_target(self._ports[port_name]),
+                )
             )
 
         line_end = [","] * (len(port_map) - 1) + [""]
@@ -1924,8 +1946,12 @@ class EntityInst(Instance):
                 (port_name, self._scope.format_value(self._ports[port_name]))
             )
 
-        entity_name = self._entity._name
-        arch_name = self._entity._arch_name
+        entity_name = self._entity.entity_name()
+        arch_name = (
+            self._entity._arch_name
+            if self._entity._arch is None
+            else self._entity._arch.arch_name()
+        )
         arch_spec = "" if arch_name is None else f"({arch_name})"
         path = self._entity._path
 
